@@ -13,6 +13,8 @@ package main
 //   -> status=<n> body=x<hex> cors=<0|1> ipc=.. resp=.. dec=..   (the handler called in-package: a URL.Path the mux does not let through / another metrics file)
 //   brokerhttp debugview <ptype:nat,...|->      -> x<hex of GET /debug on a broker with exactly these registered proxies>
 //   brokerhttp hdrget <k:v,...|-> <key x>       -> x<hex of Header.Get(key) of a request with these header lines>
+//   brokerhttp twinenc <legacy body x|g> <nat x>  -> len=<n> twin=x<hex>: the versioned body clientOffers shims this legacy body into
+//       (messages.ClientPollRequest{Offer: body, NAT: nat}.EncodeClientPollRequest(), as in broker/http.go)
 //   brokerhttp seq <event;event;...>            -> one result per event, on a fresh broker and server, strictly one after the other
 //       P:<sid x>:<ptype x>:<nat x>   a proxy poll over TCP left waiting (it answers "ANS:"+offer when matched); result P=ok once registered
 //       R:<raw request x>             result R=<status>,<cors>,x<body (armor-decoded for /amp/client/)>  or R=noresponse
@@ -269,6 +271,18 @@ func vhDirect(i *IPC, args []string) string {
 	return fmt.Sprintf("status=%d body=x%s cors=%s ipc=%s resp=%s dec=%s", w.Code, hex.EncodeToString(out), cors, ipc, respHex, dec)
 }
 
+func vhTwinEnc(args []string) string {
+	if len(args) < 3 {
+		return "!badcase"
+	}
+	req := messages.ClientPollRequest{Offer: string(vhHex(args[1])), NAT: string(vhHex(args[2]))}
+	b, err := req.EncodeClientPollRequest()
+	if err != nil {
+		return "!encode"
+	}
+	return fmt.Sprintf("len=%d twin=x%s", len(b), hex.EncodeToString(b))
+}
+
 func vhKVs(tok string) [][2]string {
 	var out [][2]string
 	if tok == "-" || tok == "" {
@@ -462,6 +476,8 @@ func TestVerifHttpDriver(t *testing.T) {
 				res[idx] = vhHdrGet(a)
 			case "seq":
 				res[idx] = vhSeq(a, metricsFile)
+			case "twinenc":
+				res[idx] = vhTwinEnc(a)
 			default:
 				res[idx] = vhOne(addr, i, a)
 			}
